@@ -30,7 +30,7 @@ STUBS = ["sums/: frozenset in finder/report -> native frozenset (CrossHair's sub
 ASSUMPTIONS = ["the rendered text (column alignment, colours, human-readable rounding above 999 lines) and the process-level CLIs are outside",
                "front/ runs the real code untraced on each leaf"]
 BOUNDS = {"quick": "sums/: 4 files in a 3-level layout (one is a symlink into the code base, one unused), 5 code nodes with symbolic counts "
-                   "0..10^6, associations over 2 platforms chosen by 2 bits per node (split over obligations), prune and depth symbolic; "
+                   "0..10^6, associations over 2 platforms chosen by 2 bits per node (split over obligations), prune symbolic, depth limit in {none, 2} (thorough: 0..3); "
                    "front/: 1 scenario x 4 bits",
           "thorough": "sums/ over 3 platforms"}
 EXPLANATION = ("sums/: CrossHair keeps the line counts symbolic through the real accumulation code, so every identity is proven by z3 for all "
@@ -68,7 +68,7 @@ def _pre(ns, ks):
 
 def h_sums(n0: int, n1: int, n2: int, n3: int, n4: int, k0: int, k1: int, k2: int, k3: int, prune: bool, levels: int) -> bool:
     """
-    pre: _pre([n0, n1, n2, n3, n4], [k0, k1, k2, k3]) and 0 <= levels <= 3
+    pre: _pre([n0, n1, n2, n3, n4], [k0, k1, k2, k3]) and levels in P["levels"]
     post: _
     """
     import codebasin.finder as finder
@@ -381,7 +381,8 @@ def obligations(tier, known):
     for a in range(1 << npl):
         for b in range(1 << npl):
             obs.append(Ob(id="sums/%dp/k0=%d,k1=%d" % (npl, a, b), kind="ch", module=__name__, func="h_sums",
-                          params=dict(nplat=npl, fix=[a, b]), timeout=600, group="sums"))
+                          params=dict(nplat=npl, fix=[a, b], levels=[0, 2] if tier == "quick" else [0, 1, 2, 3]), timeout=600,
+                          group="sums"))
     obs.append(Ob(id="front/scenario", kind="ch", module=__name__, func="h_front", params={}, timeout=300, group="front"))
     return obs
 
